@@ -23,7 +23,7 @@ func buildReplay(w *World, id string, o *Obligation, repo string) *Replay {
 	switch {
 	case strings.HasPrefix(o.Name, "lemma.") && o.Model != "":
 		replayLemma(w, rp, o, repo)
-	case o.Inputs != nil && isSshdObligation(o.Name):
+	case isSshdObligation(o.Name):
 		replaySshdObligation(w, rp, id, o, repo)
 	default:
 		if fn, ok := replayAdapters[adapterKey(o.Name)]; ok {
@@ -72,6 +72,10 @@ func sshdOracle(in sshdReplayInput, obs *sshdObservation) []string {
 	var bad []string
 	if obs.Panic != "" {
 		bad = append(bad, "C11: panic: "+obs.Panic)
+	}
+	if obs.Hang {
+		bad = append(bad, "C05/C13: processing did not return within 2s although the call's context was cancelled="+fmt.Sprint(in.Cancel)+" (hand-off to an unready correlator is not governed by the call's context)")
+		return bad
 	}
 	if obs.Err != "" && in.FailAt == 0 {
 		bad = append(bad, "C11: error returned although no write failed: "+obs.Err)
@@ -159,7 +163,7 @@ func replaySshdObligation(w *World, rp *Replay, id string, o *Obligation, repo s
 	line, ok1 := modelString(o.Inputs, "config.logEntry", "sm.Message")
 	pid, ok2 := modelString(o.Inputs, "config.pid", "sm.PID")
 	if !ok1 || !ok2 {
-		rp.Notes = append(rp.Notes, "the solver's model does not determine the line/PID inputs")
+		replaySshdCorpus(w, rp, o, repo)
 		return
 	}
 	in := sshdReplayInput{Line: line, PID: pid}
@@ -299,4 +303,91 @@ func replayLemma(w *World, rp *Replay, o *Obligation, repo string) {
 	if !rp.Confirmed {
 		rp.Notes = append(rp.Notes, "the real code renders this line correctly (lemma-level failure only)")
 	}
+}
+
+// replaySshdCorpus: no model (the solvers answered unknown). Bounded search for a failing input: the sample
+// line of every message format of the oracle (plus variants), under the fault decisions of the failed path.
+func replaySshdCorpus(w *World, rp *Replay, o *Obligation, repo string) {
+	failAt, cancel := 0, false
+	writes := 0
+	// the failing path is not known without a model: try the fault decisions of every recorded path
+	type fd struct {
+		failAt int
+		cancel bool
+	}
+	seen := map[fd]bool{{0, false}: true, {0, true}: true, {1, false}: true}
+	fds := []fd{{0, false}, {0, true}, {1, false}}
+	for _, vc := range o.VCs {
+		failAt, cancel, writes = 0, false, 0
+		for _, t := range vc.trace {
+			switch t {
+			case "write:ok":
+				writes++
+			case "write:fail":
+				writes++
+				failAt = writes
+			case "select:done":
+				cancel = true
+			}
+		}
+		if !seen[fd{failAt, cancel}] {
+			seen[fd{failAt, cancel}] = true
+			fds = append(fds, fd{failAt, cancel})
+		}
+	}
+	forms, err := loadForms()
+	if err != nil {
+		rp.Notes = append(rp.Notes, "no model and no format oracle: "+err.Error())
+		return
+	}
+	var lines []string
+	for _, f := range forms {
+		if f.Regex != "" {
+			continue
+		}
+		var b strings.Builder
+		for _, it := range f.items {
+			if it.Field != nil {
+				b.WriteString(sampleItems(it.Field.items))
+			} else {
+				b.WriteString(it.Lit)
+			}
+		}
+		lines = append(lines, b.String())
+		if f.Name == "failed-password" || f.Name == "max-auth-attempts" {
+			lines = append(lines, strings.Replace(b.String(), " for ", " for invalid user ", 1))
+		}
+		if f.Name == "accepted-publickey" {
+			lines = append(lines, b.String()+" trailing data", b.String()+" ID key id (serial 7) CA RSA SHA256:abc")
+		}
+	}
+	lines = append(lines, "", "User ", "Accepted password", "some unrelated line")
+	var ins []sshdReplayInput
+	for _, d := range fds {
+		for _, l := range lines {
+			for _, pid := range []string{"4242", "70000", "x"} {
+				if pid != "4242" && !strings.HasPrefix(l, "Accepted") {
+					continue
+				}
+				ins = append(ins, sshdReplayInput{Line: l, PID: pid, FailAt: d.failAt, Cancel: d.cancel})
+			}
+		}
+	}
+	obs, log, err := replaySshdLines(repo, ins)
+	rp.ReplayCmd = fmt.Sprintf("go test -overlay <generated> -vet=off -run TestGovcReplaySshd ./processors/sshd/   (%d corpus inputs: format samples x fault decisions of the failed paths)", len(ins))
+	if err != nil || len(obs) != len(ins) {
+		rp.ReplayLog = trunc(log, 3000)
+		rp.Notes = append(rp.Notes, fmt.Sprint("corpus replay did not run: ", err))
+		return
+	}
+	for i, ob := range obs {
+		if bad := sshdOracle(ins[i], &ob); len(bad) > 0 {
+			rp.Confirmed = true
+			rp.Inputs = map[string]any{"line": ins[i].Line, "pid": ins[i].PID, "fail_write": ins[i].FailAt, "cancelled": ins[i].Cancel, "found_by": "bounded corpus search (no solver model)"}
+			rp.ReplayLog = mustJSON(ob)
+			rp.Notes = append(rp.Notes, bad...)
+			return
+		}
+	}
+	rp.Notes = append(rp.Notes, fmt.Sprintf("no solver model; none of the %d corpus inputs violates the property on the real code", len(ins)))
 }
